@@ -248,7 +248,7 @@ func in(errBuf *strings.Builder, validName, objName, fieldName string, tv reflec
 
 	// 取右括号的下标
 	rightBracketIndex := strings.LastIndex(val, ")")
-	if leftBracketIndex == -1 || rightBracketIndex == -1 {
+	if leftBracketIndex == -1 || rightBracketIndex == -1 || rightBracketIndex < leftBracketIndex {
 		errBuf.WriteString(GetJoinFieldErr(objName, fieldName, useErrMsg))
 		return
 	}
@@ -477,6 +477,9 @@ func Datetime(errBuf *strings.Builder, validName, objName, fieldName string, tv 
 	defaultSplit := []string{"-", " ", ":"}
 	if val != "" {
 		for i, split := range strings.Split(strings.Trim(val, "'"), ",") {
+			if i >= len(defaultSplit) { // 多余的分隔符忽略
+				break
+			}
 			defaultSplit[i] = split
 		}
 	}
